@@ -44,8 +44,8 @@ def run_local(wd, tag, stimuli):
     sp = os.path.join(wd, tag + ".stim.ndjson")
     out = os.path.join(wd, tag + ".log.ndjson")
     write_ndjson(sp, stimuli)
-    vlib.run_bin("h_once", ["local", sp, out], timeout=1800)
-    return read_ndjson(out)
+    recs, _crashes = vlib.run_stimuli("h_once", "local", sp, out, timeout=1800)
+    return recs
 
 
 API_KEEP = ("ev", "id", "w", "side", "op", "res", "outcome", "pool_len", "panics")
